@@ -48,7 +48,7 @@ Definition shift_walk (d : Z) (kids : list node) : res (list node * list unit) :
   each_trak kids (shift_table (shift_entry 32 d) (shift_entry 64 d)).
 
 Lemma shift_spec : forall p kids rs ts d,
-  moov_check p = Ok kids -> co_regions p = Some rs -> co_tables p = Some ts -> (- 2 ^ 31 < d < 2 ^ 31)%Z ->
+  moov_check p = Ok kids -> co_regions p = Some rs -> co_tables p = Some ts -> (- 2 ^ 31 <= d < 2 ^ 31)%Z ->
   match shift_all d ts with
   | Some ts' =>
       exists kids' u, each_trak kids (shift_table (shift_entry 32 d) (shift_entry 64 d)) = Ok (kids', u) /\
@@ -134,7 +134,7 @@ Qed.
 
 (* ------------------------------------------------------------------ corollaries in the words of C01 / C04 / C09 *)
 Lemma shift_ok_iff : forall p kids ts d,
-  moov_check p = Ok kids -> co_tables p = Some ts -> (- 2 ^ 31 < d < 2 ^ 31)%Z ->
+  moov_check p = Ok kids -> co_tables p = Some ts -> (- 2 ^ 31 <= d < 2 ^ 31)%Z ->
   is_ok (each_trak kids (shift_table (shift_entry 32 d) (shift_entry 64 d))) =
   negb (existsb (fun t : N * list N =>
                    existsb (fun e => match shift (fst t) d e with None => true | Some _ => false end) (snd t)) ts).
@@ -148,7 +148,7 @@ Proof.
 Qed.
 
 Lemma offsets_shifted : forall p kids ts d kids' u,
-  moov_check p = Ok kids -> co_tables p = Some ts -> (- 2 ^ 31 < d < 2 ^ 31)%Z ->
+  moov_check p = Ok kids -> co_tables p = Some ts -> (- 2 ^ 31 <= d < 2 ^ 31)%Z ->
   each_trak kids (shift_table (shift_entry 32 d) (shift_entry 64 d)) = Ok (kids', u) ->
   exists ts', co_tables (put_nodes kids') = Some ts' /\ shift_all d ts = Some ts' /\ shifted_by d ts ts'.
 Proof.
@@ -160,7 +160,7 @@ Proof.
 Qed.
 
 Lemma shape_preserved : forall p kids rs d kids' u,
-  moov_check p = Ok kids -> co_regions p = Some rs -> (- 2 ^ 31 < d < 2 ^ 31)%Z ->
+  moov_check p = Ok kids -> co_regions p = Some rs -> (- 2 ^ 31 <= d < 2 ^ 31)%Z ->
   each_trak kids (shift_table (shift_entry 32 d) (shift_entry 64 d)) = Ok (kids', u) ->
   co_regions (put_nodes kids') = Some rs /\ blen (put_nodes kids') = blen p /\
   masked_eq rs p (put_nodes kids') = true.
@@ -174,7 +174,7 @@ Proof.
 Qed.
 
 Lemma overflow_rejected : forall p kids ts d,
-  moov_check p = Ok kids -> co_tables p = Some ts -> (- 2 ^ 31 < d < 2 ^ 31)%Z ->
+  moov_check p = Ok kids -> co_tables p = Some ts -> (- 2 ^ 31 <= d < 2 ^ 31)%Z ->
   (exists t e, In t ts /\ In e (snd t) /\ shift (fst t) d e = None) ->
   each_trak kids (shift_table (shift_entry 32 d) (shift_entry 64 d)) = EParse InvalidInput.
 Proof.
@@ -188,7 +188,7 @@ Proof.
 Qed.
 
 Lemma shape_preserved_regions : forall p kids d kids' u,
-  moov_check p = Ok kids -> (- 2 ^ 31 < d < 2 ^ 31)%Z ->
+  moov_check p = Ok kids -> (- 2 ^ 31 <= d < 2 ^ 31)%Z ->
   each_trak kids (shift_table (shift_entry 32 d) (shift_entry 64 d)) = Ok (kids', u) ->
   co_regions (put_nodes kids') = co_regions p /\ co_regions p <> None /\ blen (put_nodes kids') = blen p.
 Proof.
@@ -198,7 +198,7 @@ Proof.
 Qed.
 
 Lemma moov_identical_outside_tables : forall p kids rs d kids' u,
-  moov_check p = Ok kids -> co_regions p = Some rs -> (- 2 ^ 31 < d < 2 ^ 31)%Z ->
+  moov_check p = Ok kids -> co_regions p = Some rs -> (- 2 ^ 31 <= d < 2 ^ 31)%Z ->
   each_trak kids (shift_table (shift_entry 32 d) (shift_entry 64 d)) = Ok (kids', u) ->
   put_nodes kids = p /\ blen (put_nodes kids') = blen p /\ masked_eq rs p (put_nodes kids') = true.
 Proof.
@@ -207,7 +207,7 @@ Proof.
 Qed.
 
 Lemma rejected_only_on_overflow : forall p kids ts d,
-  moov_check p = Ok kids -> co_tables p = Some ts -> (- 2 ^ 31 < d < 2 ^ 31)%Z ->
+  moov_check p = Ok kids -> co_tables p = Some ts -> (- 2 ^ 31 <= d < 2 ^ 31)%Z ->
   is_ok (each_trak kids (shift_table (shift_entry 32 d) (shift_entry 64 d))) = false ->
   exists t e, In t ts /\ In e (snd t) /\ shift (fst t) d e = None.
 Proof.
